@@ -277,13 +277,16 @@ func (s *Session) ev(e Event) {
 	s.tr.Events = append(s.tr.Events, e)
 }
 
-func (s *Session) evAt(e Event, at time.Time) {
+// evAt appends an event and returns its index (other goroutines append too: the index is only
+// known under the lock).
+func (s *Session) evAt(e Event, at time.Time) int {
 	s.evMu.Lock()
 	defer s.evMu.Unlock()
 	d := at.Sub(s.start)
 	e.T, e.Ns = int64(d/time.Millisecond), int64(d)
 	e.Step = s.step
 	s.tr.Events = append(s.tr.Events, e)
+	return len(s.tr.Events) - 1
 }
 
 // ClientSend injects a datagram from the client.
@@ -366,8 +369,7 @@ func (s *Session) collectTraffic() (newEv []int) {
 		}
 	}
 	for _, it := range items {
-		newEv = append(newEv, len(s.tr.Events))
-		s.evAt(it.e, it.at)
+		newEv = append(newEv, s.evAt(it.e, it.at))
 	}
 	if c, at := s.MQ.SUTClosed(); c && !s.tr.MQClosed {
 		s.tr.MQClosed, s.tr.MQCloseNs = true, int64(at.Sub(s.start))
@@ -478,7 +480,9 @@ func Reactions(a Auto, e Event) (sn []snref.Pkt, mq []mqttref.Pkt) {
 func (s *Session) react(idx []int) bool {
 	sent := false
 	for _, i := range idx {
+		s.evMu.Lock()
 		e := s.tr.Events[i]
+		s.evMu.Unlock()
 		sn, mq := Reactions(s.auto, e)
 		if e.Dir == GB && e.MQ != nil && e.MQ.Type == mqttref.PINGREQ {
 			s.eagerMu.Lock()
